@@ -107,12 +107,14 @@ def _build_inputs(case, tmp):
                 "f0": round(float(rng.normal(3.0 if good else 0.0, 1.0)), 6),
                 "f1": round(float(rng.normal(1.5 if good else 0.0, 1.0)), 6),
                 "f2": round(float(rng.normal(0.0, 1.0)), 6),
+                "f3gap": (round(float(rng.normal(0.0, 1.0)), 6) if (len(rows) % 53) else float("nan")),
+                "f4": round(float(rng.normal(0.5 if good else 0.0, 1.0)), 6),
                 "Peptide": ("K." + pool[j] + ".A") if t else dec[j],
                 "Proteins": "x",
             })
     df = pd.DataFrame(rows)
     keep = {1: ["ScanNr"], 2: ["ScanNr", "ExpMass"], 3: ["filename", "ScanNr", "ExpMass"], 4: ["filename", "ScanNr", "ret_time", "ExpMass"]}[case["key"]]
-    cols = ["SpecId", "Label"] + keep + ["f0", "f1", "f2", "Peptide", "Proteins"]
+    cols = ["SpecId", "Label"] + keep + ["f0", "f1", "f2", "f3gap", "f4", "Peptide", "Proteins"]  # f3gap has missing values: dropped by the parser
     df = df[cols]
     ext = ".parquet" if case["fmt"] == "parquet" else ".pin"
     path = Path(tmp) / f"input{ext}"
